@@ -459,6 +459,10 @@ class SymEval:
                 call = ast.Call(func=fexpr, args=acc, keywords=[ast.keyword(arg=k.arg, value=self.val(q, k.value)) for k in node.keywords])
                 q = q.copy()
                 q.calls.append((call, q.susp, loop))
+                # a local list literal that is appended to: functional update (inside a loop: one representative element)
+                if isinstance(f, ast.Attribute) and f.attr == 'append' and isinstance(f.value, ast.Name) and len(acc) == 1 \
+                        and isinstance(q.env.get(f.value.id), ast.List) and not isinstance(acc[0], ast.Starred):
+                    q.env[f.value.id] = ast.List(elts=list(q.env[f.value.id].elts) + [acc[0]], ctx=ast.Load())
                 if isinstance(fexpr, ast.Attribute) and fexpr.attr in _MUTATORS:
                     _mark_stale(q, fexpr.value)
                 if self.name_calls:
